@@ -198,15 +198,14 @@ def main(argv=None):
         "wall_s": round(wall, 2),
         "violations": len(new_viol),
     }
-    os.makedirs(os.path.join(HERE, "evidence"), exist_ok=True)
-    with open(os.path.join(HERE, "evidence", f"{pid}.json"), "w") as f:
+    # developer runs against a scratch copy (PMV_REPO set) never touch the registered evidence
+    scratch = os.path.realpath(os.environ.get("PMV_REPO", "/repo")) != "/repo"
+    evdir = os.path.join(HERE, ".run", "scratch_evidence") if scratch else os.path.join(HERE, "evidence")
+    os.makedirs(evdir, exist_ok=True)
+    with open(os.path.join(evdir, f"{pid}.json"), "w") as f:
         json.dump(ev, f, indent=1)
     if not a.keep:
         shutil.rmtree(rundir, ignore_errors=True)
-        try:
-            os.rmdir(os.path.join(HERE, ".run"))
-        except OSError:
-            pass
 
     print(f"[{pid} {a.tier} seed={a.seed}] {len(events)} cases in {wall:.1f}s on {nsh} shards: "
           f"{dict(verdicts)}; distinct non-trivial {len(keys)}")
